@@ -88,7 +88,14 @@ pub fn apply_fault(rng: &mut Rng, data: &mut Vec<u8>, donors: &[&[u8]]) -> Appli
     }
     let ext = table_extents(data);
     let is_sfnt = !ext.is_empty();
-    let op = rng.below(if is_sfnt { 14 } else { 6 });
+    let op = rng.below(if is_sfnt { 18 } else { 6 });
+    if op >= 14 {
+        // structure-aware faults inside CFF / glyf+loca / gvar (falls back on a hot-table field)
+        if let Some(a) = super::faults_struct::apply_struct_fault(rng, data) {
+            return a;
+        }
+    }
+    let op = if op >= 14 { 6 } else { op };
     match op {
         0 => {
             let i = rng.below(data.len());
